@@ -91,6 +91,25 @@ func ruleC14(w *World, r *Report) {
 		if expiredFact != nil && activeFact != nil {
 			r.Check(expiredFact.If == activeFact.If && expiredFact.Succ != activeFact.Succ, "C14.status.shape/"+ctName(ct)+".same-test", "MUST-PASS", fn, fi.InstrPos(expiredFact.If), "Expired and Active are the two edges of one comparison", "Expired and Active are decided by different comparisons")
 		}
+		// integer form (BSC, ETH: unsigned seconds): Expired exactly on  timestamp + period </<= now.
+		// A difference (now - timestamp) is a different comparison on unsigned values: it wraps when
+		// the newest header is ahead of the block time (the ETH client accepts headers up to 15 s in
+		// the future), reporting a fresh client as Expired.
+		if f := expiredFact; f != nil && (f.Op == "<" || f.Op == "<=") {
+			sumOK := f.L.Op == "bin" && f.L.Name == "+" && len(f.L.Args) == 2 &&
+				((f.L.Args[0].String() == tsTerm && f.L.Args[1].String() == period) || (f.L.Args[1].String() == tsTerm && f.L.Args[0].String() == period))
+			clockOK := strings.Contains(f.R.String(), "Context).BlockTime($1)") && !strings.Contains(f.R.String(), tsTerm) && !strings.Contains(f.R.String(), period)
+			minus := false
+			for _, side := range []*Term{f.L, f.R} {
+				side.Walk(func(x *Term) {
+					if x.Op == "bin" && x.Name == "-" {
+						minus = true
+					}
+				})
+			}
+			r.Check(sumOK && clockOK && !minus, "C14.status.shape/"+ctName(ct)+".sum", "BIND", fn, fi.InstrPos(f.If), "Expired iff (timestamp + trusting period) "+f.Op+" block time",
+				"the expiry comparison is '"+clip(f.Atom)+"', not (timestamp + trusting period) < block time: a difference of unsigned values wraps when the newest header is ahead of the block time, and a rearranged comparison changes which side of the boundary is Expired")
+		}
 	}
 
 	// ---- calendar accessors anywhere in consensus code
